@@ -317,9 +317,10 @@ def run_one(cfg, decisions=None, keep_events=False):
         # ---- schedules over the implementation's own mesh ------------------------------
         rng = random.Random(cfg["sched_seed"])
         # (a distribution cut to <= 1 point is judged by the final value, A2, not by prefixes)
-        check_prefix = (contrib is not None and not ambiguous and n_impl == n_loop and cfg["dtype"] == "double"
-                        and not truncated)
-        tol = 1e-11
+        check_prefix = (contrib is not None and not ambiguous and n_impl == n_loop and not truncated)
+        # double: 1e-11 of the magnitude sum; single: the kernel accumulates in
+        # float32, n * eps32 with a margin
+        tol = 1e-11 if cfg["dtype"] == "double" else max(2e-5, 4 * n_loop * 1.2e-7)
         buffers = {}
         if n_impl > 0:
             scheds = make_schedules(rng, n_impl, slot_stride[:max(1, len(order))] if order else [], cfg.get("tier", "quick"))
@@ -703,7 +704,7 @@ RULE = ("one case = one workload (compiled model, 1-D or 2-D q, parameter set wi
 
 ASSUMPTIONS = [
     "the reference shares the per-point physics with the implementation (each mesh point is evaluated alone through the same compiled kernel as a one-point mesh); what is independent is the mesh enumeration, gating, accumulation, restart and normalisation",
-    "prefix sums are compared at 1e-11 relative to the sum of magnitudes (double precision only); schedules are compared with each other at 1e-12 (double) / 2e-5 (single) of the magnitude sums - bit-identity is measured and reported as a probe, not demanded",
+    "prefix sums are compared at 1e-11 (double) / max(2e-5, 4 n eps32) (single) relative to the sum of magnitudes; the public-interface values in double only; schedules are compared with each other at 1e-12 (double) / 2e-5 (single) of the magnitude sums - bit-identity is measured and reported as a probe, not demanded",
     "workloads whose cutoff lies within 8 ulp of a multi-loop weight product are checked for schedule independence only (the reference cannot decide '>' there)",
     "the input dimensions (models, parameter sets, distributions, limits) are sampled workload variety; the dimension this technique decides is the invocation schedule",
     "GPU back ends (per-call private accumulators) are not exercised",
